@@ -190,7 +190,7 @@ def gen_raw(rng):
 PRODUCERS = ["limit_fanin", "limit_fanout", "ternary", "miter", "half_adder", "full_adder", "adder", "mux", "popcount",
              "strip_blackboxes", "copy", "relabel", "fill_nested", "subcircuit_nested", "fill_nested", "subcircuit_nested",
              "unroll", "insert_registers", "acyclic_unroll", "sensitization", "verilog_roundtrip", "bench_roundtrip",
-             "remove_unloaded", "remove_unloaded", "sequential_unroll", "sequential_unroll"]
+             "remove_unloaded", "remove_unloaded", "sequential_unroll", "sequential_unroll", "bench_text", "verilog_text", "bench_text", "bench_text"]
 
 
 def gen_produced(rng, k=None):
@@ -230,6 +230,22 @@ def gen_produced(rng, k=None):
         case["k"] = rng.randint(1, 2)
         if fn == "insert_registers" and rng.random() < 0.6:
             case["circuit"] = lib.add_flop(rng, case["circuit"], inst="u_ff")
+    elif fn in ("bench_text", "verilog_text"):
+        # hand-written netlist text: operands drawn WITH replacement (NAND(a, a) is the usual NAND-only inverter), which a
+        # write->read round trip never produces because a graph holds each operand once (seeded C20-s9)
+        names = [f"i{k}" for k in range(rng.randint(1, 3))]
+        gates = []
+        for k in range(rng.randint(1, 5)):
+            t = rng.choice(["and", "nand", "or", "nor", "xor", "xnor", "not", "buf"])
+            ar = 1 if t in ("not", "buf") else rng.choice([1, 2, 2, 2, 3, 4])
+            ops = [rng.choice(names) for _ in range(ar)]
+            if ar >= 2 and rng.random() < 0.6:
+                ops[rng.randrange(1, ar)] = ops[0]
+            gates.append([f"g{k}", t, ops])
+            names.append(f"g{k}")
+        used = {o for g in gates for o in g[2]}
+        case["text"] = {"inputs": [n for n in names if n.startswith("i")], "gates": gates,
+                        "outputs": [g[0] for g in gates if g[0] not in used] or [gates[-1][0]]}
     elif fn == "sequential_unroll":
         # a flop circuit in which an ordinary net carries the name <inst>_<pin> of an ignored pin (a buffered / gated clock)
         d = lib.rand_dag(rng, rng.randint(2, 3), rng.randint(1, 4), max_fanin=3)
@@ -371,6 +387,18 @@ def impl(case):
             r = cg.io.verilog_to_circuit(cg.io.circuit_to_verilog(c, behavioral=case["k"] == 2), c.name)
         elif fn == "bench_roundtrip":
             r = cg.io.bench_to_circuit(cg.io.circuit_to_bench(c), c.name)
+        elif fn == "bench_text":
+            t = case["text"]
+            txt = "".join(f"INPUT({i})\n" for i in t["inputs"]) + "".join(f"OUTPUT({o})\n" for o in t["outputs"])
+            txt += "".join(f"{g} = {('BUFF' if ty == 'buf' else ty.upper())}({', '.join(ops)})\n" for g, ty, ops in t["gates"])
+            r = cg.io.bench_to_circuit(txt, "top")
+        elif fn == "verilog_text":
+            t = case["text"]
+            txt = f"module top({', '.join(t['inputs'] + t['outputs'])});\n"
+            txt += "".join(f"  input {i};\n" for i in t["inputs"]) + "".join(f"  output {o};\n" for o in t["outputs"])
+            txt += "".join(f"  wire {g};\n" for g, _, _ in t["gates"] if g not in t["outputs"])
+            txt += "".join(f"  {ty} u_{g}({g}, {', '.join(ops)});\n" for g, ty, ops in t["gates"]) + "endmodule\n"
+            r = cg.io.verilog_to_circuit(txt, "top")
     except Exception as e:
         return {"producer_exc": type(e).__name__}
     obs = {"out": lib.dump_circuit(r), "lint": _lint(r)}
